@@ -263,8 +263,8 @@ func (s *ObjectStorage) requireIndex() error {
 			// A racing winner published while we were loading.
 			// Close any indexes we built so SharedFile refcounts
 			// (held by LazyIndex) do not leak.
-			for _, idx := range local {
-				_ = idx.Close()
+			for _, k := range simhook.HashKeys(local) {
+				_ = local[k].Close()
 			}
 		}
 		s.muI.Unlock()
@@ -979,8 +979,8 @@ func (s *ObjectStorage) HashesWithPrefix(prefix []byte) ([]plumbing.Hash, error)
 	simhook.BeforeRLock(&s.muI)
 	s.muI.RLock()
 	indexes := make([]idxfile.Index, 0, len(s.index))
-	for _, idx := range s.index {
-		indexes = append(indexes, idx)
+	for _, k := range simhook.HashKeys(s.index) {
+		indexes = append(indexes, s.index[k])
 	}
 	s.muI.RUnlock()
 
@@ -1126,7 +1126,8 @@ func (s *ObjectStorage) Close() error {
 	// Close is a no-op.
 	simhook.BeforeRLock(&s.muI)
 	s.muI.RLock()
-	for _, idx := range s.index {
+	for _, k := range simhook.HashKeys(s.index) {
+		idx := s.index[k]
 		if err := idx.Close(); firstError == nil && err != nil {
 			firstError = err
 		}
@@ -1177,7 +1178,8 @@ func (s *ObjectStorage) CloseIdleDescriptors() error {
 	// implementations that hold no FDs (notably MemoryIndex).
 	simhook.BeforeRLock(&s.muI)
 	s.muI.RLock()
-	for _, idx := range s.index {
+	for _, k := range simhook.HashKeys(s.index) {
+		idx := s.index[k]
 		if r, ok := idx.(storer.IdleReleaser); ok {
 			if err := r.CloseIdleDescriptors(); err != nil {
 				errs = append(errs, err)
